@@ -31,8 +31,10 @@ Fixpoint run_calls {R} (sh : shape) (resp : responder R) (calls : list (use * li
 
 Definition is_eval (e : event) : bool := match e with EvEval _ => true | _ => false end.
 Definition is_answer (e : event) : bool := match e with EvAnswer _ _ => true | _ => false end.
+Definition is_real (e : event) : bool := match e with EvReal _ _ => true | _ => false end.
 Definition count_evals (tr : list event) : nat := length (filter is_eval tr).
 Definition count_answers (tr : list event) : nat := length (filter is_answer tr).
+Definition count_reals (tr : list event) : nat := length (filter is_real tr).
 
 (* ---------------- the harness' fixed answer function and printing ---------------- *)
 
@@ -51,9 +53,26 @@ Definition first_id (args : list aval) (st : store) : N :=
 Definition harness_answer : answer_fn N :=
   fun _ args st => (5000 + first_id args st, write_all 1000 args st).
 
-Inductive rkind := UseAnswer | UseReturn.
+(* the harness' real functions: number fid logs its arguments, writes like the answer function and
+   returns 20000 + 1000 * fid + the id of its first value argument *)
+Definition rvals (rargs : list rarg) : list aval :=
+  flat_map (fun a => match a with RVal v => [v] | RSelf _ => [] end) rargs.
+Definition harness_real (fid : N) : real_fn N :=
+  fun rargs st => (20000 + 1000 * fid + first_id (rvals rargs) st, write_all 1000 (rvals rargs) st).
+
+(* UseUnmock items uw k: the clause says applies_unmocked(); the trait has the fn items [items]
+   (true = mocked method), the attribute `unmock_with = uw`, and the method is the k-th mocked one *)
+Inductive rkind := UseAnswer | UseReturn | UseUnmock (items : list bool) (uw : list uentry) (k : nat).
 Definition harness_resp (k : rkind) : responder N :=
-  match k with UseAnswer => KAnswer harness_answer | UseReturn => KReturn 5000 end.
+  match k with
+  | UseAnswer => KAnswer harness_answer
+  | UseReturn => KReturn 5000
+  | UseUnmock items uw j =>
+      match unmock_of items (Some uw) j with
+      | Some (fid, ps) => KUnmockArm fid (harness_real fid) ps
+      | None => KUnmock
+      end
+  end.
 
 Record kase := {
   k_shape : shape;
@@ -88,6 +107,13 @@ Definition show_event (sh : shape) (st : store) (e : event) : string :=
   match e with
   | EvEval i => "M" ++ show_list st (unpack i)
   | EvAnswer s args => "A self=" ++ show_self (sh_recv sh) s ++ show_list st args
+  | EvReal fid rargs =>
+      "U f=" ++ dec fid ++ " self="
+      ++ match find (fun a => match a with RSelf _ => true | _ => false end) rargs with
+         | Some (RSelf s) => show_self (sh_recv sh) s
+         | _ => "none"
+         end
+      ++ show_list st (rvals rargs)
   end.
 
 Definition show_ret (c : rclass) (n : N) : string :=
@@ -114,7 +140,7 @@ Definition call_lines (sh : shape) (resp : responder N) (u : use) (ids : list N)
   | Now None => (["ILL-TYPED"], m, a)
   | Now (Some (tr, res, st')) =>
       let m' := (m + count_evals tr)%nat in
-      let a' := (a + count_answers tr)%nat in
+      let a' := (a + count_answers tr + count_reals tr)%nat in
       (map (show_event sh st) tr
          ++ [res_line sh res; w_line st'], m', a')%list
   | Later f =>
@@ -126,7 +152,7 @@ Definition call_lines (sh : shape) (resp : responder N) (u : use) (ids : list N)
           | None => (["ILL-TYPED"], m, a)
           | Some (tr, res, st') =>
               let m' := (m + count_evals tr)%nat in
-              let a' := (a + count_answers tr)%nat in
+              let a' := (a + count_answers tr + count_reals tr)%nat in
               ((pre ++ map (show_event sh st) tr ++ [show_counts "awaited" m' a']
                 ++ [res_line sh res; w_line st'])%list, m', a')
           end
